@@ -181,15 +181,7 @@ func parseLine(p *parser) parseStateFn {
 		p.currentLine.typ = lineEmpty
 		return parseEmptyLines
 	case tokComment:
-		if strings.HasPrefix(p.nextToken.val, ";name") {
-			p.metadata.Name = strings.TrimSpace(p.nextToken.val[5:])
-		} else if strings.HasPrefix(p.nextToken.val, ";author") {
-			p.metadata.Author = strings.TrimSpace(p.nextToken.val[7:])
-		} else if strings.HasPrefix(p.nextToken.val, ";strategy") {
-			if len(p.nextToken.val) > 10 {
-				p.metadata.Strategy += p.nextToken.val[10:] + "\n"
-			}
-		}
+		p.recordMetadata(p.nextToken.val)
 		p.currentLine.typ = lineComment
 		return parseComment
 	case tokText:
@@ -199,6 +191,19 @@ func parseLine(p *parser) parseStateFn {
 	default:
 		p.err = fmt.Errorf("line %d: unexpected token: '%s' type %d", p.line, p.nextToken, p.nextToken.typ)
 		return nil
+	}
+}
+
+// recordMetadata keeps the text of a ;name, ;author or ;strategy comment
+func (p *parser) recordMetadata(comment string) {
+	if strings.HasPrefix(comment, ";name") {
+		p.metadata.Name = strings.TrimSpace(comment[5:])
+	} else if strings.HasPrefix(comment, ";author") {
+		p.metadata.Author = strings.TrimSpace(comment[7:])
+	} else if strings.HasPrefix(comment, ";strategy") {
+		if len(comment) > 10 {
+			p.metadata.Strategy += comment[10:] + "\n"
+		}
 	}
 }
 
@@ -228,8 +233,12 @@ func parseComment(p *parser) parseStateFn {
 // newline / comments: consume
 // anyting else: nil
 func parseLabels(p *parser) parseStateFn {
-	// just consume newlines and comments for now
+	// consume newlines and comments between the labels and their
+	// instruction; a metadata comment there still counts
 	if p.nextToken.typ == tokNewline || p.nextToken.typ == tokComment {
+		if p.nextToken.typ == tokComment {
+			p.recordMetadata(p.nextToken.val)
+		}
 		p.next()
 		return parseLabels
 	}
@@ -272,8 +281,11 @@ func parseColon(p *parser) parseStateFn {
 		p.next()
 	}
 
-	// just consume newlines and comments for now
+	// consume newlines and comments; a metadata comment still counts
 	if p.nextToken.typ == tokNewline || p.nextToken.typ == tokComment {
+		if p.nextToken.typ == tokComment {
+			p.recordMetadata(p.nextToken.val)
+		}
 		p.next()
 		return parseColon
 	}
